@@ -1,13 +1,48 @@
-"""C04 - the region hierarchy is self-consistent (Props!WellFormed on every stage state)."""
-from .stagefam import run_family
+"""C04 - the region hierarchy is self-consistent.
+Props!WellFormed on every stage state (StageCheck.tla), and - so that the first operation that breaks consistency is
+named - the consistency clauses that must hold between primitives on the state after EVERY primitive of every recorded
+behaviour (TraceRestructure.tla)."""
+from __future__ import annotations
+
+import json
+
+from .. import rb, tlc
+from ..common import Report, parse_args
+from . import stagefam, tracefam
+
+PROP = "C04"
 
 
 def main(argv):
-    return run_family(
-        "C04", "C04", argv, "XRBS",
-        nontrivial=lambda s: s["nblocks"] > s["n"] + 1,
-        rule="closed CFGs: all with <=4 nodes, 5-node ones modulo relabelling (sampled in the quick tier), seeded random 6-18 nodes, "
-             "std-lib bytecode CFGs; one TLC state per (behaviour, stage); non-trivial = restructuring created at least one region "
-             "and one further block",
-        level_text="",
-    )
+    args = parse_args(PROP, argv)
+    rep = Report(PROP, args.tier, args.seed, "model_checking")
+    if args.replay:
+        with open(args.replay) as f:
+            inputs = [json.load(f)["input"]["id"]]
+        rep.replay_only = args.replay
+        tinputs = inputs
+    else:
+        inputs = rb.domain_inputs(args.tier, args.seed, "XRBS")
+        tinputs = tracefam.trace_inputs(args.tier, args.seed)
+    d = rb.workdir(PROP)
+    try:
+        res = rb.record_domain(inputs, d, jobs=args.jobs, shards=args.jobs, stages=True)
+        verdicts = stagefam.evaluate(res, "C04", args.jobs)
+        stagefam.account(rep, res, verdicts, lambda s: s["nblocks"] > s["n"] + 1,
+                         "closed CFGs: all with <=4 nodes, 5-node ones modulo relabelling (sampled in the quick tier), seeded random 6-18 nodes, std-lib bytecode "
+                         "CFGs, generated source programs; one TLC state per (behaviour, stage) plus one per primitive event of a second, smaller set of "
+                         "behaviours; non-trivial = restructuring created at least one region and one further block", inputs)
+        tr = tracefam.run_traces(tinputs, "C04", d, args.jobs)
+        for v in tr["viol"]:
+            for clause in v["bad"]:
+                if clause.startswith("C04/"):
+                    rep.violation("after-primitive/" + clause[4:], {"id": v["id"], "event": v["event"]}, detail={"failed": v["bad"]})
+        rep.coverage["states"] += tr["states"]
+        rep.coverage["transitions"] += tr["generated"]
+        rep.coverage["primitive_events_checked"] = tr["events"]
+        rep.coverage["traces_validated_against_impl"] += tr["behaviours"]
+    finally:
+        tlc.cleanup(d)
+    rep.assumptions += ["TLC and the CommunityModules Json reader", "harness projection (harness/project.py) faithfully flattens the live objects",
+                        "front-end graphs are used only when they pass the closed-CFG domain test (DESIGN section 9)"]
+    return rep.finish()
